@@ -14,13 +14,25 @@ fn val(kind_string: bool, x: f64) -> Value {
     }
 }
 
-// @verif prop=C16 tier=quick timeout=600 mem=4000 cost=40 clause="Variables::set: Ok iff the value kind matches the `$` suffix, for a fresh and for an existing name; a refused write leaves the stored value untouched; reads of absent names give 0 / empty string"
+// @verif prop=C16 tier=quick timeout=600 mem=6000 cost=60 clause="Variables::set (name without `$`): Ok iff the value kind matches the `$` suffix, for a fresh and for an existing name; a refused write leaves the stored value untouched; reads of absent names give 0 / empty string"
 // @verif sample="name in {A, A$}; first write kind any; second write kind any, value any f64" bounds="two writes to one name"
 #[kani::proof]
 #[kani::unwind(6)]
 #[kani::stub(std::backtrace::Backtrace::capture, crate::verif_support::stub_backtrace_capture)]
-fn c16_variables_typed_setter() {
-    let dollar: bool = kani::any();
+fn c16_variables_typed_setter_numeric_name() {
+    typed_setter(false);
+}
+
+// @verif prop=C16 tier=quick timeout=600 mem=6000 cost=60 clause="Variables::set on a `$` name: Ok iff the value is a string, for a fresh and for an existing name; a refused write leaves the stored value untouched"
+// @verif sample="name A$; first write kind any; second write kind any" bounds="two writes to one name"
+#[kani::proof]
+#[kani::unwind(6)]
+#[kani::stub(std::backtrace::Backtrace::capture, crate::verif_support::stub_backtrace_capture)]
+fn c16_variables_typed_setter_string_name() {
+    typed_setter(true);
+}
+
+fn typed_setter(dollar: bool) {
     let k1: bool = kani::any();
     let k2: bool = kani::any();
     let x1: f64 = kani::any();
